@@ -14,6 +14,11 @@ use std::{
 #[cfg_attr(docsrs, doc(cfg(feature = "serde1")))]
 pub mod serde;
 
+/// The longest timeout a deadline timer is armed with. `tokio_util::time::DelayQueue` panics on
+/// timeouts beyond its range (about 2.2 years); deadlines further away than this are enforced late
+/// rather than crashing the task that tracks them.
+pub(crate) const MAX_DEADLINE_TIMEOUT: Duration = Duration::from_secs(86_400 * 365);
+
 /// Extension trait for [Instants](Instant) in the future, i.e. deadlines.
 pub trait TimeUntil {
     /// How much time from now until this time is reached.
